@@ -1,4 +1,4 @@
-package main
+package main_test
 
 // C09 — decisions are stateless: inputs untouched, reports faithful, no history.
 
